@@ -8,6 +8,8 @@ Open Scope R_scope.
 
 Notation worldR := (world RN).
 Notation opR := (op RN).
+(* in this file tensors are written as the model writes them (convertible to list R) *)
+Notation tensorW := (tensor RN).
 
 (* ------------------------------------------------------------------ association lists *)
 Lemma lookup_replace_same {A} k (v : A) l :
@@ -46,9 +48,9 @@ Proof. induction l as [|[k' v'] t IH]; cbn; [reflexivity|]. destruct (Z.eqb k k'
 (* ------------------------------------------------------------------ a per-parameter invariant principle *)
 (* I nm x a : a property of the value x of parameter nm together with its accumulator a *)
 Section Invariant.
-Variable I : Z -> tensorR -> accR -> Prop.
+Variable I : Z -> tensorW -> accR -> Prop.
 
-Definition holds_on (ps : list (Z * tensorR)) (us : list (Z * accR)) : Prop :=
+Definition holds_on (ps : list (Z * tensorW)) (us : list (Z * accR)) : Prop :=
   forall nm x a, lookup nm ps = Some x -> lookup nm us = Some a -> I nm x a.
 Definition holds (w : worldR) : Prop :=
   forall us, upd RN w = Some us -> holds_on (params RN w) us.
@@ -86,10 +88,11 @@ Lemma st_clear nm x a : I nm x a -> I nm x (acc_clear RN a).
 Proof. intros H. unfold acc_clear. apply (st_del_neg Hst), (st_del_pos Hst), H. Qed.
 
 Lemma holds_on_replace_acc ps us k a a' :
-  holds_on ps us -> lookup k us = Some a -> (forall x, I k x a -> I k x a') -> holds_on ps (replace k a' us).
+  holds_on ps us -> lookup k us = Some a -> (forall x, lookup k ps = Some x -> I k x a -> I k x a') ->
+  holds_on ps (replace k a' us).
 Proof.
   intros H Hk Hf nm x b Hx Hb. destruct (Z.eq_dec nm k) as [->|Hne].
-  - rewrite lookup_replace_same, Hk in Hb. injection Hb as <-. apply Hf, (H k x a); assumption.
+  - rewrite lookup_replace_same, Hk in Hb. injection Hb as <-. apply Hf; [exact Hx|]. apply (H k x a); assumption.
   - rewrite lookup_replace_other in Hb by exact Hne. apply (H nm x b); assumption.
 Qed.
 
@@ -99,7 +102,7 @@ Proof.
   intros H Hf. unfold on_acc, find_acc. destruct (upd RN w) as [us|] eqn:Eu; [|exact H].
   destruct (lookup k us) as [a|] eqn:Ek; [|exact H].
   cbn. intros us' Hus'. injection Hus' as <-.
-  eapply holds_on_replace_acc; [apply H, Eu|exact Ek|]. intros x. apply Hf.
+  eapply holds_on_replace_acc; [apply H, Eu|exact Ek|]. intros x _. apply Hf.
 Qed.
 
 Lemma apply_names_holds nms : forall ps us,
@@ -114,9 +117,403 @@ Proof.
   - apply IH. intros nm x' b Hx' Hb. destruct (Z.eq_dec nm k) as [->|Hne].
     + rewrite lookup_replace_same, Ex in Hx'. rewrite lookup_replace_same, Ek in Hb.
       injection Hx' as <-. injection Hb as <-. exact Hf.
-    + rewrite lookup_replace_other in Hx', Hb by exact Hne. apply (H nm x' b); assumption.
-  - eapply holds_on_replace_acc; [exact H|exact Ek|]. intros x' Hx'.
-    (* the parameter of k is x *) 
-    pose proof (H k x a Ex Ek) as _. exact Hf.
+    + rewrite lookup_replace_other in Hx' by exact Hne. rewrite lookup_replace_other in Hb by exact Hne.
+      apply (H nm x' b); assumption.
+  - eapply holds_on_replace_acc; [exact H|exact Ek|]. intros x' Hx' _.
+    rewrite Ex in Hx'. injection Hx' as <-. exact Hf.
+Qed.
+
+Lemma clear_all_holds ps us : holds_on ps us -> holds_on ps (clear_all RN us).
+Proof.
+  intros H nm x b Hx Hb. unfold clear_all in Hb. rewrite lookup_map_snd in Hb.
+  destruct (lookup nm us) as [a|] eqn:Ea; [|discriminate]. injection Hb as <-.
+  apply st_clear, (H nm x a); assumption.
+Qed.
+
+Lemma update_some_holds nms clear : forall ps us,
+  holds_on ps us ->
+  let '(ps', us', _) := update_some RN ps us nms clear in holds_on ps' us'.
+Proof.
+  induction nms as [|k tl IH]; intros ps us H; cbn [update_some]; [exact H|].
+  pose proof (apply_names_holds [k] ps us H) as H1.
+  destruct (apply_names RN ps us [k]) as [[ps1 us1] [e|]]; [exact H1|].
+  apply IH. destruct clear; [|exact H1].
+  destruct (lookup k us1) as [a|] eqn:Ek; [|exact H1].
+  eapply holds_on_replace_acc; [exact H1|exact Ek|]. intros x _. apply st_clear.
+Qed.
+
+Lemma finish_holds r :
+  (let '(ps', us', _) := r in holds_on ps' us') -> holds (fst (finish RN r)).
+Proof.
+  destruct r as [[ps us] [e|]]; cbn; intros H us' E; injection E as <-; exact H.
+Qed.
+
+Lemma acc_step_holds {B} w k (g : accR -> tensorW -> accR * B) us a x :
+  holds w -> upd RN w = Some us -> lookup k us = Some a -> lookup k (params RN w) = Some x ->
+  (I k x a -> I k x (fst (g a x))) ->
+  holds (put_acc RN w us k (fst (g a x))).
+Proof.
+  intros H Eu Ek Ex Hg us' E. cbn in E. injection E as <-. cbn.
+  eapply holds_on_replace_acc; [apply H, Eu|exact Ek|]. intros x' Hx' Hi.
+  rewrite Ex in Hx'. injection Hx' as <-. apply Hg, Hi.
+Qed.
+
+Theorem step_holds w o : safe_op o -> holds w -> holds (fst (step RN w o)).
+Proof.
+  intros Hs H. destruct o; cbn [step safe_op] in *.
+  - apply on_acc_holds; assumption.
+  - apply on_acc_holds; assumption.
+  - apply on_acc_holds; assumption.
+  - apply on_acc_holds; assumption.
+  - apply on_acc_holds; [assumption|]. intros x a. apply st_clear.
+  - apply on_acc_holds; [assumption|]. intros x a. apply (st_del_pos Hst).
+  - apply on_acc_holds; [assumption|]. intros x a. apply (st_del_neg Hst).
+  - (* OpGetPos *)
+    unfold find_acc. destruct (upd RN w) as [us|] eqn:Eu; [|exact H].
+    destruct (lookup nm us) as [a|] eqn:Ek; [|exact H].
+    destruct (get_pos RN a) as [a' r] eqn:Eg. cbn [fst].
+    intros us' E. cbn in E. injection E as <-. cbn.
+    eapply holds_on_replace_acc; [apply H, Eu|exact Ek|]. intros x _ Hi.
+    replace a' with (fst (get_pos RN a)) by (rewrite Eg; reflexivity). apply (st_get_pos Hst), Hi.
+  - unfold find_acc. destruct (upd RN w) as [us|] eqn:Eu; [|exact H].
+    destruct (lookup nm us) as [a|] eqn:Ek; [|exact H].
+    destruct (get_neg RN a) as [a' r] eqn:Eg. cbn [fst].
+    intros us' E. cbn in E. injection E as <-. cbn.
+    eapply holds_on_replace_acc; [apply H, Eu|exact Ek|]. intros x _ Hi.
+    replace a' with (fst (get_neg RN a)) by (rewrite Eg; reflexivity). apply (st_get_neg Hst), Hi.
+  - (* OpAccUpdate *)
+    unfold find_acc. destruct (upd RN w) as [us|] eqn:Eu; [|exact H].
+    destruct (lookup nm us) as [a|] eqn:Ek; [|exact H].
+    destruct (lookup nm (params RN w)) as [x|] eqn:Ex; [|exact H].
+    destruct (acc_update RN a x) as [a' r] eqn:Eg. cbn [fst].
+    replace a' with (fst (acc_update RN a x)) by (rewrite Eg; reflexivity).
+    eapply (acc_step_holds w nm (acc_update RN)); eauto. apply (st_update Hst).
+  - (* OpAccForward *)
+    unfold find_acc. destruct (upd RN w) as [us|] eqn:Eu; [|exact H].
+    destruct (lookup nm us) as [a|] eqn:Ek; [|exact H].
+    destruct (lookup nm (params RN w)) as [x|] eqn:Ex; [|exact H].
+    pose proof (st_forward Hst nm x a) as Hf.
+    destruct (acc_forward RN a x) as [a' r] eqn:Eg. cbn [fst].
+    intros us' E. cbn in E. injection E as <-. cbn.
+    eapply holds_on_replace_acc; [apply H, Eu|exact Ek|]. intros x' Hx' Hi.
+    rewrite Ex in Hx'. injection Hx' as <-. specialize (Hf Hi).
+    (* acc(param) does not assign: the parameter keeps its value, the accumulator only its caches *)
+    pose proof (st_update Hst nm x a Hi) as Hu. unfold acc_forward in Eg.
+    destruct (acc_update RN a x) as [a2 r2]. injection Eg as <- _. exact Hu.
+  - apply on_acc_holds; assumption.
+  - apply on_acc_holds; assumption.
+  - apply on_acc_holds; assumption.
+  - apply on_acc_holds; assumption.
+  - (* OpUpdate *)
+    destruct (upd RN w) as [us|] eqn:Eu; [|exact H].
+    pose proof (apply_names_holds (match @nil Z with [] => map fst us | _ => [] end) (params RN w) us (H us Eu)) as H1.
+    unfold updater_forward.
+    destruct (apply_names RN (params RN w) us (map fst us)) as [[ps1 us1] [e|]]; cbn [fst];
+      intros us' E; cbn in E; injection E as <-; cbn; [exact H1|].
+    destruct clear; [apply clear_all_holds|]; exact H1.
+  - (* OpUpdateSome *)
+    destruct (upd RN w) as [us|] eqn:Eu.
+    + apply finish_holds, update_some_holds, H, Eu.
+    + destruct nms; exact H.
+  - (* OpClear *)
+    destruct (upd RN w) as [us|] eqn:Eu; [|exact H].
+    intros us' E. cbn in E. injection E as <-. cbn. apply clear_all_holds, H, Eu.
+  - (* OpApply *)
+    destruct (upd RN w) as [us|] eqn:Eu; [|exact H].
+    apply finish_holds. unfold updater_forward. apply apply_names_holds, H, Eu.
+  - (* OpSetParam *)
+    intros us E. cbn in E. cbn. intros k x a Hx Ha. destruct (Z.eq_dec k nm) as [->|Hne].
+    + rewrite lookup_replace_same in Hx. destruct (lookup nm (params RN w)) as [x0|] eqn:E0; [|discriminate].
+      injection Hx as <-. apply (Hs x0), (H us E nm x0 a E0 Ha).
+    + rewrite lookup_replace_other in Hx by exact Hne. apply (H us E k x a Hx Ha).
+  - (* OpNewUpdater *)
+    destruct (forallb _ nms); [|exact H].
+    intros us E. cbn in E. injection E as <-. cbn. intros k x a Hx Ha.
+    assert (Ha' : a = fresh f).
+    { clear -Ha. induction nms as [|n t IH]; cbn in Ha; [discriminate|].
+      destruct (Z.eqb k n); [injection Ha as <-; destruct f; reflexivity|apply IH, Ha]. }
+    subst a. apply Hs.
+  - (* OpDelUpdater *)
+    intros us E. discriminate E.
+Qed.
+
+Theorem run_holds ops : forall w, Forall safe_op ops -> holds w -> holds (run RN w ops).
+Proof.
+  induction ops as [|o tl IH]; intros w Hs H; cbn [run]; [exact H|].
+  inversion Hs; subst. apply IH; [assumption|]. apply step_holds; assumption.
 Qed.
 End Invariant.
+
+(* ================================================================== instance 1: cache coherence *)
+Definition Icoh (_ : Z) (_ : tensorW) (a : accR) : Prop := coh a.
+
+Lemma Icoh_stable : stable Icoh.
+Proof.
+  constructor; unfold Icoh; intros nm x a H.
+  - destruct (get_pos_spec a H) as (a' & E & H' & _). rewrite E. exact H'.
+  - destruct (get_neg_spec a H) as (a' & E & H' & _). rewrite E. exact H'.
+  - destruct (acc_update_coherent a x H) as (a' & E & H' & _). rewrite E. exact H'.
+  - destruct (acc_forward_coherent a x H) as (a' & E & H' & _). rewrite E.
+    destruct (forward_val a x); exact H'.
+  - apply coh_del_pos, H.
+  - apply coh_del_neg, H.
+Qed.
+
+Definition no_reduction (o : opR) : Prop := match o with OpReduction _ _ _ => False | _ => True end.
+
+Lemma no_reduction_safe o : no_reduction o -> safe_op Icoh o.
+Proof.
+  destruct o; cbn; unfold Icoh; intros Hn; try exact I; try contradiction; intros.
+  - apply coh_add_neg, coh_add_pos; assumption.
+  - apply coh_add_pos; assumption.
+  - apply coh_add_pos; assumption.
+  - apply coh_add_neg; assumption.
+  - unfold acc_upperbound. destruct (as_half RN (abind RN a)). apply coh_set_bind; assumption.
+  - unfold acc_lowerbound. destruct (as_half RN (abind RN a)). apply coh_set_bind; assumption.
+  - unfold acc_fullbound. destruct k; apply coh_set_bind; assumption.
+  - assumption.
+  - unfold fresh. destruct f; [apply coh_new_red|apply coh_new].
+Qed.
+
+(* every cached reduction equals the reduction of the pending parts, after ANY sequence of operations
+   (contributions, reads, applications, clears, re-binding, new updaters, ...) that does not change a
+   reduction after construction *)
+Theorem cache_coherent ops w :
+  holds Icoh w -> Forall no_reduction ops -> holds Icoh (run RN w ops).
+Proof.
+  intros H Hn. apply run_holds; [apply Icoh_stable| |exact H].
+  eapply Forall_impl; [|exact Hn]. apply no_reduction_safe.
+Qed.
+Corollary cache_coherent_from_start ps ops us nm a :
+  Forall no_reduction ops ->
+  upd RN (run RN (mkWorld RN ps None) ops) = Some us -> lookup nm us = Some a ->
+  lookup nm (params RN (run RN (mkWorld RN ps None) ops)) <> None -> coh a.
+Proof.
+  intros Hn Eu Ea Hp.
+  assert (H0 : holds Icoh (mkWorld RN ps None)) by (intros us0 E; discriminate E).
+  pose proof (cache_coherent ops _ H0 Hn us Eu) as H.
+  destruct (lookup nm (params RN (run RN (mkWorld RN ps None) ops))) as [x|] eqn:Ex; [|congruence].
+  apply (H nm x a Ex Ea).
+Qed.
+
+(* ================================================================== instance 2: range preservation *)
+Section Range.
+Variables (target : Z) (len : nat) (mx mn cap : R).
+
+Definition in_range (x : tensorW) : Prop := Forall (fun v => mn <= v <= mx) x.
+Definition unit_part (t : tensorW) : Prop := length t = len /\ Forall (fun v => 0 <= v <= cap) t.
+(* the dependences for which the property claims the range invariant, with the admissible magnitude *)
+Definition range_bind (b : bindT RN) : Prop :=
+  (b = BFull RN (FMul RN) (Some mx) (Some mn) /\ cap = 1 /\ mn <= mx) \/
+  (b = BFull RN (FSMul RN) (Some mx) (Some mn) /\ cap = mx - mn /\ mn < mx) \/
+  (exists up lp, b = BFull RN (FSPow RN up lp) (Some mx) (Some mn) /\ 1 <= up /\ 1 <= lp /\ cap = mx - mn /\ mn < mx) \/
+  (b = BHalf RN (HB RN (HMulU RN) (Some mx)) (HB RN (HMulL RN) (Some mn)) /\ cap = 1 /\ mn <= mx) \/
+  (b = BHalf RN (HB RN (HSMulU RN (mx - mn)) (Some mx)) (HB RN (HSMulL RN (mx - mn)) (Some mn)) /\
+   cap = mx - mn /\ mn < mx).
+
+Lemma range_bind_step b x p n :
+  range_bind b -> mn <= x <= mx -> 0 <= p <= cap -> 0 <= n <= cap ->
+  mn <= x + bind_upper b x p - bind_lower b x n <= mx.
+Proof.
+  intros Hb Hx Hp Hn.
+  destruct Hb as [(-> & -> & Hm)|[(-> & -> & Hm)|[(up & lp & -> & Hu & Hl & -> & Hm)|[(-> & -> & Hm)|(-> & -> & Hm)]]]];
+    cbn [bind_upper bind_lower slot_fn].
+  - pose proof (multiplicative_step_in_range x p n mx mn Hx Hp Hn) as H.
+    pose proof (full_val_decomp (FMul RN) (Some mx) (Some mn) x p n eq_refl) as D. cbn [full_val] in D. lra.
+  - pose proof (scaled_multiplicative_step_in_range x p n mx mn Hm Hx Hp Hn) as H.
+    pose proof (full_val_decomp (FSMul RN) (Some mx) (Some mn) x p n eq_refl) as D. cbn [full_val] in D. lra.
+  - pose proof (scaled_power_step_in_range x p n mx mn up lp Hm Hx Hu Hl Hp Hn) as H.
+    pose proof (full_val_decomp (FSPow RN up lp) (Some mx) (Some mn) x p n eq_refl) as D. cbn [full_val] in D. lra.
+  - pose proof (half_multiplicative_step_in_range x p n mx mn Hx Hp Hn) as H. cbn [half_apply]. lra.
+  - pose proof (scaled_multiplicative_step_in_range x p n mx mn Hm Hx Hp Hn) as H.
+    cbn [half_apply]. unfold bound_scaled_multiplicative in H. cbv zeta in H.
+    rn_simpl. lra.
+Qed.
+Lemma range_bind_ok b : range_bind b -> bind_ok b /\ 0 <= cap.
+Proof.
+  intros [(-> & -> & Hm)|[(-> & -> & Hm)|[(up & lp & -> & Hu & Hl & -> & Hm)|[(-> & -> & Hm)|(-> & -> & Hm)]]]];
+    cbn; repeat split; auto; lra.
+Qed.
+
+Ltac isplit := split; [|split; [|split; [|split; [|split; [|split]]]]].
+
+Definition Irange (nm : Z) (x : tensorW) (a : accR) : Prop :=
+  nm = target ->
+  length x = len /\ in_range x /\ range_bind (abind RN a) /\ red_hull (ared RN a) /\
+  Forall unit_part (apos RN a) /\ Forall unit_part (aneg RN a) /\ coh a.
+
+Lemma Irange_cfg nm x a a' :
+  Irange nm x a -> same_cfg a a' -> coh a' -> Irange nm x a'.
+Proof.
+  intros H (P & Nn & Rr & B) Hc E. destruct (H E) as (L & Hx & Hb & Hh & Hp & Hn & _).
+  rewrite P, Nn, Rr, B. isplit; auto.
+Qed.
+
+Lemma rcol_unit red parts j :
+  red_hull red -> 0 <= cap -> Forall unit_part parts -> (j < len)%nat -> 0 <= rcol red parts j <= cap.
+Proof.
+  intros Hh Hc Hp Hj. unfold rcol. destruct parts as [|p0 t]; [lra|].
+  apply Hh; [cbn; congruence|]. unfold column. rewrite Forall_map.
+  eapply Forall_impl; [|exact Hp]. intros p [Lp Fp]. rewrite Forall_forall in Fp. apply Fp, nth_In. rewrite <- Lp in Hj. exact Hj.
+Qed.
+
+Lemma Irange_stable : stable Irange.
+Proof.
+  constructor; intros nm x a H.
+  - destruct (Z.eq_dec nm target) as [E|NE]; [|intros E; contradiction].
+    destruct (H E) as (_ & _ & _ & _ & _ & _ & Hc).
+    destruct (get_pos_spec a Hc) as (a' & Eg & Hc' & S). rewrite Eg. eapply Irange_cfg; eauto.
+  - destruct (Z.eq_dec nm target) as [E|NE]; [|intros E; contradiction].
+    destruct (H E) as (_ & _ & _ & _ & _ & _ & Hc).
+    destruct (get_neg_spec a Hc) as (a' & Eg & Hc' & S). rewrite Eg. eapply Irange_cfg; eauto.
+  - destruct (Z.eq_dec nm target) as [E|NE]; [|intros E; contradiction].
+    destruct (H E) as (_ & _ & _ & _ & _ & _ & Hc).
+    destruct (acc_update_coherent a x Hc) as (a' & Eg & Hc' & S). rewrite Eg. eapply Irange_cfg; eauto.
+  - destruct (Z.eq_dec nm target) as [E|NE].
+    2:{ destruct (acc_forward RN a x) as [a' [y|e]]; intros E; contradiction. }
+    destruct (H E) as (L & Hx & Hb & Hh & Hp & Hn & Hc).
+    destruct (range_bind_ok _ Hb) as [Hok Hcap].
+    assert (W : wshape a (length x)).
+    { rewrite L. split; (eapply Forall_impl; [|eassumption]); intros p [Lp _]; exact Lp. }
+    destruct (apply_spec a x Hc W Hok) as (a' & y & Eg & Hc' & S & Ly & Hy). rewrite Eg.
+    intros _. destruct S as (P & Nn & Rr & B). rewrite P, Nn, Rr, B.
+    split; [congruence|]. split; [|split; [auto|split; [auto|split; [auto|split; auto]]]].
+    unfold in_range. apply Forall_forall. intros v Hv.
+    destruct (In_nth y v 0 Hv) as (j & Hj & <-). rewrite Ly in Hj. rewrite (Hy j Hj).
+    assert (Hxj : mn <= nth j x 0 <= mx).
+    { unfold in_range in Hx. rewrite Forall_forall in Hx. apply Hx, nth_In, Hj. }
+    rewrite L in Hj.
+    pose proof (rcol_unit (ared RN a) (apos RN a) j Hh Hcap Hp Hj) as Rp.
+    pose proof (rcol_unit (ared RN a) (aneg RN a) j Hh Hcap Hn Hj) as Rn.
+    pose proof (range_bind_step _ _ _ _ Hb Hxj Rp Rn) as Hs.
+    destruct (apos RN a), (aneg RN a); try exact Hs. exact Hxj.
+  - intros E. destruct (H E) as (L & Hx & Hb & Hh & Hp & Hn & Hc).
+    isplit; cbn; auto. apply coh_del_pos, Hc.
+  - intros E. destruct (H E) as (L & Hx & Hb & Hh & Hp & Hn & Hc).
+    isplit; cbn; auto. apply coh_del_neg, Hc.
+Qed.
+
+(* admissible operations of a history: contributions to the target parameter have the parameter's size and
+   magnitudes in [0, cap]; the target's binding and reduction are not changed; a direct assignment of the
+   target keeps it inside the limits; everything else (other parameters, reads, update / updatesome / clear /
+   apply in any interleaving) is unrestricted *)
+Definition ok_part (p : option tensorW) : Prop := match p with None => True | Some t => unit_part t end.
+Definition good_op (o : opR) : Prop :=
+  match o with
+  | OpAdd _ k p n => k = target -> ok_part p /\ ok_part n
+  | OpAddT _ k p | OpAddPos _ k p | OpAddNeg _ k p => k = target -> ok_part p
+  | OpReduction _ k _ | OpUpper _ k _ _ | OpLower _ k _ _ | OpFull _ k _ _ _ => k <> target
+  | OpSetParam _ k v => k = target -> length v = len /\ in_range v
+  | OpNewUpdater _ _ _ => False
+  | _ => True
+  end.
+
+Lemma Irange_add_pos nm x a p : (nm = target -> ok_part p) -> Irange nm x a -> Irange nm x (add_pos RN a p).
+Proof.
+  intros Hp H E. destruct (H E) as (L & Hx & Hb & Hh & Fp & Fn & Hc). specialize (Hp E).
+  destruct p as [t|]; [|isplit; auto].
+  isplit; cbn; auto; [|apply (coh_add_pos a (Some t)), Hc].
+  apply Forall_app. split; [exact Fp|constructor; [exact Hp|constructor]].
+Qed.
+Lemma Irange_add_neg nm x a p : (nm = target -> ok_part p) -> Irange nm x a -> Irange nm x (add_neg RN a p).
+Proof.
+  intros Hp H E. destruct (H E) as (L & Hx & Hb & Hh & Fp & Fn & Hc). specialize (Hp E).
+  destruct p as [t|]; [|isplit; auto].
+  isplit; cbn; auto; [|apply (coh_add_neg a (Some t)), Hc].
+  apply Forall_app. split; [exact Fn|constructor; [exact Hp|constructor]].
+Qed.
+
+Lemma good_op_safe o : good_op o -> safe_op Irange o.
+Proof.
+  destruct o; cbn; intros Hg; try exact I; try contradiction; intros.
+  - apply Irange_add_neg; [intros E; apply Hg, E|]. apply Irange_add_pos; [intros E; apply Hg, E|assumption].
+  - apply Irange_add_pos; assumption.
+  - apply Irange_add_pos; assumption.
+  - apply Irange_add_neg; assumption.
+  - intros E; contradiction.
+  - intros E; contradiction.
+  - intros E; contradiction.
+  - intros E; contradiction.
+  - intros E. destruct (H E) as (L & Hx & Hr). destruct (Hg E) as [Lv Hv]. split; [exact Lv|split; [exact Hv|exact Hr]].
+Qed.
+
+(* THE INVARIANT over arbitrarily long histories *)
+Theorem range_invariant_history ops w :
+  holds Irange w -> Forall good_op ops -> holds Irange (run RN w ops).
+Proof.
+  intros H Hg. apply run_holds; [apply Irange_stable| |exact H].
+  eapply Forall_impl; [|exact Hg]. apply good_op_safe.
+Qed.
+
+(* how the invariant is established: a fresh updater with a hull-preserving reduction, then fullbound *)
+Lemma range_setup ps x g k :
+  lookup target ps = Some x -> length x = len -> in_range x -> red_hull g ->
+  range_bind (BFull RN k (Some mx) (Some mn)) ->
+  holds Irange (run RN (mkWorld RN ps None)
+                  [OpNewUpdater RN [target] (Some g); OpFull RN target (Some k) (Some mx) (Some mn)]).
+Proof.
+  intros Ex L Hx Hg Hb. cbn [run step fst forallb]. rewrite Ex. cbn [andb fst map].
+  unfold on_acc, find_acc. cbn [upd lookup]. rewrite Z.eqb_refl. cbn [fst put_acc replace params].
+  rewrite Z.eqb_refl. intros us E. cbn in E. injection E as <-.
+  intros nm y a Hy Ha. cbn in Hy, Ha. destruct (Z.eqb nm target) eqn:En; [|discriminate].
+  injection Ha as <-. apply Z.eqb_eq in En. subst nm. rewrite Ex in Hy. injection Hy as <-.
+  intros _. isplit; cbn; auto. split; cbn; auto.
+Qed.
+End Range.
+
+(* the property's sentence, end to end: configure, then ANY admissible history, then look at the parameter *)
+Theorem stays_in_range_forever target mx mn cap ps x g k ops us a y :
+  lookup target ps = Some x -> in_range mx mn x -> red_hull g ->
+  range_bind mx mn cap (BFull RN k (Some mx) (Some mn)) ->
+  Forall (good_op target (length x) mx mn cap) ops ->
+  let w := run RN (mkWorld RN ps None)
+             ([OpNewUpdater RN [target] (Some g); OpFull RN target (Some k) (Some mx) (Some mn)] ++ ops) in
+  upd RN w = Some us -> lookup target us = Some a -> lookup target (params RN w) = Some y ->
+  length y = length x /\ in_range mx mn y.
+Proof.
+  intros Ex Hx Hg Hb Hops w Eu Ea Ey.
+  assert (Hrun : forall l1 l2 w0, run RN w0 (l1 ++ l2) = run RN (run RN w0 l1) l2).
+  { induction l1; intros; cbn [run app]; auto. }
+  unfold w in *. rewrite Hrun in Eu, Ey.
+  pose proof (range_setup target (length x) mx mn cap ps x g k Ex eq_refl Hx Hg Hb) as H0.
+  pose proof (range_invariant_history target (length x) mx mn cap ops _ H0 Hops us Eu target y a Ey Ea eq_refl) as H.
+  destruct H as (L & Hy & _). auto.
+Qed.
+
+(* the three dependences named by the property *)
+Corollary multiplicative_stays_in_range target mx mn ps x g ops us a y :
+  mn <= mx -> lookup target ps = Some x -> in_range mx mn x -> red_hull g ->
+  Forall (good_op target (length x) mx mn 1) ops ->
+  let w := run RN (mkWorld RN ps None)
+             ([OpNewUpdater RN [target] (Some g); OpFull RN target (Some (FMul RN)) (Some mx) (Some mn)] ++ ops) in
+  upd RN w = Some us -> lookup target us = Some a -> lookup target (params RN w) = Some y ->
+  in_range mx mn y.
+Proof.
+  intros Hm Ex Hx Hg Hops w Eu Ea Ey.
+  eapply (stays_in_range_forever target mx mn 1 ps x g (FMul RN) ops us a y); eauto.
+  left. auto.
+Qed.
+Corollary scaled_multiplicative_stays_in_range target mx mn ps x g ops us a y :
+  mn < mx -> lookup target ps = Some x -> in_range mx mn x -> red_hull g ->
+  Forall (good_op target (length x) mx mn (mx - mn)) ops ->
+  let w := run RN (mkWorld RN ps None)
+             ([OpNewUpdater RN [target] (Some g); OpFull RN target (Some (FSMul RN)) (Some mx) (Some mn)] ++ ops) in
+  upd RN w = Some us -> lookup target us = Some a -> lookup target (params RN w) = Some y ->
+  in_range mx mn y.
+Proof.
+  intros Hm Ex Hx Hg Hops w Eu Ea Ey.
+  eapply (stays_in_range_forever target mx mn (mx - mn) ps x g (FSMul RN) ops us a y); eauto.
+  right. left. auto.
+Qed.
+Corollary scaled_power_stays_in_range target mx mn up lp ps x g ops us a y :
+  mn < mx -> 1 <= up -> 1 <= lp -> lookup target ps = Some x -> in_range mx mn x -> red_hull g ->
+  Forall (good_op target (length x) mx mn (mx - mn)) ops ->
+  let w := run RN (mkWorld RN ps None)
+             ([OpNewUpdater RN [target] (Some g); OpFull RN target (Some (FSPow RN up lp)) (Some mx) (Some mn)] ++ ops) in
+  upd RN w = Some us -> lookup target us = Some a -> lookup target (params RN w) = Some y ->
+  in_range mx mn y.
+Proof.
+  intros Hm Hu Hl Ex Hx Hg Hops w Eu Ea Ey.
+  eapply (stays_in_range_forever target mx mn (mx - mn) ps x g (FSPow RN up lp) ops us a y); eauto.
+  right. right. left. exists up, lp. auto.
+Qed.
